@@ -9,6 +9,8 @@ The object API must hand out nothing but the error: its openers have no `&mut` o
 from ..engines import Clean, returns_result
 from . import common as cm
 
+MULTI_CONFIG = True
+
 EXPLANATION = (
     "CLEAN dataflow over MIR. Output parameters = every `&mut` parameter of every classic opener "
     "(functions under classic:: that are authenticated openers per the C02 fixpoint, plus "
